@@ -45,8 +45,9 @@ theorem C01_frame (m1 m2 : Bytes) (h1 : AllBytes m1) (h2 : AllBytes m2) (pos bl 
 
 /-- **C01, flat composite tier** — `Request.encode` then `Request.decode` at the API level of the model.
     For every request/response/structure whose parameters are (at most 4000) VALUE parameters over `A_INT32`
-    `A_UINT32`, `A_FLOAT64`, `A_BYTEFIELD` or `A_ASCIISTRING` (ISO-8859-1) standard-length DOPs with the identical compu method — *any* encodings
-    (2C/1C/SM for signed), bit lengths 1–64 (integers), 64 (floats), whole bytes (byte fields, strings), bit
+    `A_UINT32`, `A_FLOAT64`, `A_FLOAT32` (numbers that are exactly binary32 normal numbers, zeros, infinities), `A_BYTEFIELD`,
+    `A_ASCIISTRING` (ISO-8859-1), `A_UTF8STRING` (UTF-8) or `A_UNICODE2STRING` (UTF-16, high-low byte order) — and `A_UINT32` in BCD-P / BCD-UP — standard-length DOPs with the identical compu method — *any* encodings
+    (2C/1C/SM for signed), bit lengths 1–64 (integers), 64 / 32 (floats), whole bytes (byte fields, strings), bit
     positions, byte orders, explicit BYTE-POSITIONs in any order or none — and every assignment of
     representable values (`values` may list them in any order; no unknown names): if the encoder returns a PDU
     without an overlap warning, decoding that PDU yields exactly the assigned values, parameter by parameter.
@@ -63,7 +64,7 @@ theorem C01_roundtrip_flat (ovs : List (Obj × IVal)) (hlen : ovs.length ≤ 400
       .ok (.dict (ovs.map fun ov => (ov.1.name, PVal.atom ov.2)), cursor) :=
   flat_roundtrip ovs hlen values trig hok hlook hknown pdu henc
 
-/-! non-vacuity of `C01_roundtrip_flat`: eight parameters, the second explicitly positioned *behind* the third,
+/-! non-vacuity of `C01_roundtrip_flat`: thirteen parameters, the second explicitly positioned *behind* the third,
     sub-byte objects sharing a byte, low-high byte order, an unsigned object, values given in a different order -/
 def exObjs : List (Obj × IVal) :=
   [(⟨"a", none, some 4, none, true, 4, .int32⟩, .int (-3)), (⟨"b", some 3, none, some .sm, false, 16, .int32⟩, .int (-300)),
@@ -71,23 +72,37 @@ def exObjs : List (Obj × IVal) :=
    (⟨"u", some 5, some 1, none, false, 10, .uint32⟩, .int 1023),
    (⟨"f", none, none, none, false, 64, .float64⟩, .flt 0x3ff8000000000000),          -- 1.5, low-high byte order
    (⟨"raw", none, none, none, true, 24, .bytes⟩, .bytes [0xde, 0xad, 0x00]),
-   (⟨"vin", none, none, some .iso1, true, 16, .ascii⟩, .str [0x57, 0xe9])]                    -- "Wé"
+   (⟨"vin", none, none, some .iso1, true, 16, .ascii⟩, .str [0x57, 0xe9]),                    -- "Wé"
+   (⟨"g", none, none, none, false, 32, .float32⟩, .flt 0xc004000000000000),        -- -2.5 (binary32 c0200000), low-high byte order
+   (⟨"t", none, none, some .utf8, true, 72, .utf8⟩, .str [0xe9, 0x20ac, 0x1f600]),           -- "é€😀": 2 + 3 + 4 bytes of UTF-8
+   (⟨"w", none, none, none, true, 48, .unicode2⟩, .str [0x20ac, 0x1f600]),                   -- "€😀": one unit + a surrogate pair
+   (⟨"n", none, none, some .bcdp, true, 16, .bcd⟩, .int 1234),                                -- packed BCD: 12 34
+   (⟨"m", none, none, some .bcdup, false, 16, .bcd⟩, .int 57)]                                -- unpacked BCD 05 07, low-high byte order
 def exValues : List (String × PVal) :=
   [("d", .atom (.int 1000)), ("u", .atom (.int 1023)), ("a", .atom (.int (-3))), ("c", .atom (.int 5)), ("b", .atom (.int (-300))),
-   ("raw", .atom (.bytes [0xde, 0xad, 0x00])), ("f", .atom (.flt 0x3ff8000000000000)), ("vin", .atom (.str [0x57, 0xe9]))]
+   ("t", .atom (.str [0xe9, 0x20ac, 0x1f600])), ("w", .atom (.str [0x20ac, 0x1f600])), ("m", .atom (.int 57)), ("n", .atom (.int 1234)),
+   ("raw", .atom (.bytes [0xde, 0xad, 0x00])), ("f", .atom (.flt 0x3ff8000000000000)), ("vin", .atom (.str [0x57, 0xe9])),
+   ("g", .atom (.flt 0xc004000000000000))]
 example : (encodeMessage none (exObjs.map fun ov => ov.1.toParam) (.dict exValues) none true).toOption
-    = some ([0xd5, 0xe8, 0x03, 0x2c, 0x81, 0xfe, 0x07, 0, 0, 0, 0, 0, 0, 0xf8, 0x3f, 0xde, 0xad, 0x00, 0x57, 0xe9], 0) := by decide +kernel
+    = some ([0xd5, 0xe8, 0x03, 0x2c, 0x81, 0xfe, 0x07, 0, 0, 0, 0, 0, 0, 0xf8, 0x3f, 0xde, 0xad, 0x00, 0x57, 0xe9,
+             0x00, 0x00, 0x20, 0xc0, 0xc3, 0xa9, 0xe2, 0x82, 0xac, 0xf0, 0x9f, 0x98, 0x80,
+             0x20, 0xac, 0xd8, 0x3d, 0xde, 0x00, 0x12, 0x34, 0x07, 0x05], 0) := by decide +kernel
 example : ∀ ov ∈ exObjs, ov.1.ok ∧ ov.1.inRange ov.2 := by
   intro ov h
   simp only [exObjs, List.mem_cons, List.mem_nil_iff, or_false] at h
-  rcases h with rfl | rfl | rfl | rfl | rfl | rfl | rfl | rfl <;>
-    simp [Obj.ok, Obj.encOk, Obj.sizeOk, Obj.inRange, int32Known, int32InRange, AllBytes]
+  rcases h with rfl | rfl | rfl | rfl | rfl | rfl | rfl | rfl | rfl | rfl | rfl | rfl | rfl <;>
+    simp [Obj.ok, Obj.encOk, Obj.sizeOk, Obj.inRange, Obj.bcdShift, int32Known, int32InRange, AllBytes]
+  · decide
+  · exact ⟨[0xc3, 0xa9, 0xe2, 0x82, 0xac, 0xf0, 0x9f, 0x98, 0x80], by decide, by decide⟩
+  · exact ⟨[0x20, 0xac, 0xd8, 0x3d, 0xde, 0x00], by decide, by decide⟩
+  · decide
+  · decide
 example : ∀ ov ∈ exObjs, lookup ov.1.name exValues = some (.atom ov.2) := by
   intro ov h
   simp only [exObjs, List.mem_cons, List.mem_nil_iff, or_false] at h
-  rcases h with rfl | rfl | rfl | rfl | rfl | rfl | rfl | rfl <;> simp [lookup, exValues]
+  rcases h with rfl | rfl | rfl | rfl | rfl | rfl | rfl | rfl | rfl | rfl | rfl | rfl | rfl <;> simp [lookup, exValues]
 
-/-- **C01, nested-structure tier.** Requests/responses/structures built from `A_INT32` / `A_UINT32` / `A_FLOAT64` / `A_BYTEFIELD` / `A_ASCIISTRING` VALUE parameters,
+/-- **C01, nested-structure tier.** Requests/responses/structures built from `A_INT32` / `A_UINT32` / `A_FLOAT64` / `A_FLOAT32` / `A_BYTEFIELD` / `A_ASCIISTRING` / `A_UTF8STRING` / `A_UNICODE2STRING` / BCD `A_UINT32` VALUE parameters,
     CODED-CONST parameters over the same diag-coded types (service and data identifiers) and
     arbitrarily deeply nested STRUCTURE-valued parameters, each positioned explicitly (BYTE-POSITION relative to
     the enclosing structure's first byte) or implicitly (behind its predecessor); sibling short names distinct.
